@@ -642,6 +642,9 @@ func (b *bitstream) ReadTimestamp() (Timestamp, error) {
 			return Timestamp{}, err
 		}
 		length -= vlength
+		if val > 9999 {
+			return Timestamp{}, &SyntaxError{"invalid timestamp - field out of range", b.pos}
+		}
 		ts[i] = int(val)
 
 		// When i is 3, it means we are setting the hour component. A timestamp with an hour
@@ -655,6 +658,15 @@ func (b *bitstream) ReadTimestamp() (Timestamp, error) {
 			// We don't update precision when i is 3 because there is no Hour precision.
 			precision++
 		}
+	}
+
+	// A timestamp has at least a year; time.Date would silently normalize impossible time
+	// fields (second 70 becomes the next minute), so they are range-checked here.
+	if precision == TimestampNoPrecision {
+		return Timestamp{}, &SyntaxError{"invalid timestamp - year is missing", b.pos}
+	}
+	if ts[0] < 1 || ts[3] > 23 || ts[4] > 59 || ts[5] > 59 || offset <= -24*60 || offset >= 24*60 {
+		return Timestamp{}, &SyntaxError{"invalid timestamp - field out of range", b.pos}
 	}
 
 	nsecs := 0
